@@ -28,6 +28,11 @@ def run(index, rep):
     rep.guard(c08.delay_greenhouse, index, rep, "C09.AREA", "C09.AREA")
     rep.guard(reloc, index, rep)
     rep.guard(quant, index, rep)
+    # the outdoor series handed to the rounds is what the crop model produced: no exporter, plotter or validator rewrites it in place through
+    # a local that is the series' own storage (the rule is C05's; filed here as C09.STATE as well)
+    from .c05 import no_alias_writes
+    from .core import RuleAlias
+    rep.guard(no_alias_writes, index, RuleAlias(rep, lambda r: "C09.STATE" if r == "C05.STATE" else r))
 
 
 def gh(index, rep):
